@@ -67,6 +67,8 @@ Names for the ``ATTR_TYPE`` attribute:
 """
 # Copyright (C) TeNPy Developers, Apache license
 
+import copyreg
+import functools
 import gzip
 import importlib
 import pickle
@@ -537,10 +539,14 @@ class Hdf5Saver:
         )
 
         obj_reduce = getattr(obj, '__reduce__', None)
+        # like pickle, prefer a reduction function registered with copyreg (e.g. for numpy ufuncs)
+        copyreg_reduce = copyreg.dispatch_table.get(type(obj))
+        if copyreg_reduce is not None:
+            obj_reduce = functools.partial(copyreg_reduce, obj)
         if obj_reduce is not None:
             rv = obj_reduce()
             if isinstance(rv, str):
-                h5gr = self.save_global(obj, REPR_GLOBAL)
+                h5gr = self.save_global(obj, path, REPR_GLOBAL, rv)
                 return h5gr
             if not isinstance(rv, tuple) or not 2 <= len(rv) < 7:
                 raise Hdf5ExportError(f'Wrong return value of {obj_reduce!r}')
@@ -804,10 +810,10 @@ class Hdf5Saver:
 
     dispatch_save[Hdf5Ignored] = (save_ignored, REPR_IGNORED)
 
-    def save_global(self, obj, path, type_repr):
-        """Save a global object like a function or class."""
+    def save_global(self, obj, path, type_repr, name=None):
+        """Save a global object like a function or class; `name` defaults to ``obj.__qualname__``."""
         module = obj.__module__
-        qualname = obj.__qualname__
+        qualname = obj.__qualname__ if name is None else name
         try:
             obj2 = find_global(module, qualname)
         except (ImportError, KeyError, AttributeError):
